@@ -137,6 +137,8 @@ func (t *tb) bindArg(child *tb, p *ssa.Parameter, a ssa.Value, sliceOf func(ssa.
 	case isBoolType(a.Type()):
 		if n, ok := t.names[a]; ok {
 			child.ssub[p] = n
+		} else if n, ok := t.names[strip(a)]; ok { // the flag converted to a named bool type
+			child.ssub[p] = n
 		} else {
 			child.ssub[p] = "?bool"
 		}
